@@ -124,10 +124,12 @@ class Impl:
             for _, p in r["ptrs"]:
                 if re.fullmatch(r"[A-Za-z_]\w*", p):
                     syms.setdefault(p, r["kind"])
-        out = ["#include <stddef.h>\n#include <stdlib.h>\nconst char *verif_last_called; int verif_calls; const void *verif_last_a0, *verif_last_a1;\n"]
+        out = ["#include <stddef.h>\n#include <stdlib.h>\n#include <string.h>\nconst char *verif_last_called; int verif_calls; const void *verif_last_a0, *verif_last_a1;\n"
+               "char verif_log[8192]; int verif_stub_ret;\n"
+               "static void verif_note(const char *s) { verif_last_called = s; verif_calls++; if (strlen(verif_log) + strlen(s) + 2 < sizeof verif_log) { if (verif_log[0]) strcat(verif_log, \",\"); strcat(verif_log, s); } }\n"]
         for s, kind in sorted(syms.items()):
             rec = " verif_last_a0 = logMessage; verif_last_a1 = arg;" if kind == "output" else ""
-            out.append("int %s(%s) { verif_last_called = \"%s\"; verif_calls++;%s return 0; }\n" % (s, SIG[kind], s, rec))
+            out.append("int %s(%s) { verif_note(\"%s\");%s return verif_stub_ret; }\n" % (s, SIG[kind], s, rec))
         for s in sorted(extra):
             if s not in syms:
                 out.append("void %s(void) { abort(); }\n" % s)
@@ -157,8 +159,11 @@ class Impl:
         sh(["gcc"] + self.flags + ["-c", os.path.join(run.tree, "src", "genericregistry.c"), "-o", g])
         dr = os.path.join(self.dir, "impl_registry.o")
         sh(["gcc"] + self.flags + ["-I" + os.path.join(VERIF, "harness"), "-c", os.path.join(VERIF, "harness", "impl_registry.c"), "-o", dr])
+        # the one caller of the filter registry that walks several names: filtering.c, from the snapshot
+        fo = os.path.join(self.dir, "filtering.o")
+        sh(["gcc"] + self.flags + ["-c", os.path.join(run.tree, "src", "filtering.c"), "-o", fo])
         und, dfn = set(), set()
-        for o in objs + [g, dr]:
+        for o in objs + [g, dr, fo]:
             for line in sh(["nm", o]).stdout.split("\n"):
                 f = line.split()
                 if len(f) == 2 and f[0] == "U":
@@ -170,7 +175,7 @@ class Impl:
         open(st, "w").write(self.stubs_source(extra))
         so = os.path.join(self.dir, "stubs.o")
         sh(["gcc"] + self.flags + ["-c", st, "-o", so])
-        self.common = [g, so, dr]
+        self.common = [g, so, dr, fo]
 
     def arrays(self, d):
         """gcc -E of the three registry files under d/config.h -> {key: (names, ptrs)} or error text"""
@@ -251,6 +256,29 @@ def config_cases(js, defined, prb):
             out.append("byname\t%s\t%s\t%s" % (k, hexs(n.encode()), g))
     for n in prb:
         out.append("dispatch\tout\t%s\t%s" % (hexs(n.encode()), g))      # snoopy_outputregistry_dispatch with CFG->output = n
+    outn = [n for _, n in js["registries"]["out"]["names"] if n]
+    for n in outn + ["nosuch"] + outn[::-1] + [x for x in prb if x not in outn][:4]:
+        out.append("dispatchs\tout\t%s\t%s" % (hexs(n.encode()), g))     # the same, CFG->output at one address, content changing
+    # the same name asked of the three registries in a row (a lookup must not remember anything across registries)
+    tabn = []
+    for k in KEYS:
+        for _, n in js["registries"][k]["names"]:
+            if n and n not in tabn:
+                tabn.append(n)
+    per = [[n for _, n in js["registries"][k]["names"] if n] for k in KEYS]
+    shared = [n for n in tabn if sum(n in p_ for p_ in per) > 1]
+    some = shared + [n for p_ in per for n in (p_[:3] + p_[-3:]) if n not in shared]
+    for n in some:
+        for k in KEYS:
+            out.append("byname\t%s\t%s\t%s" % (k, hexs(n.encode()), g))
+    # filter chains walked by filtering.c: enabled elements run in order, switched-off / unknown ones are skipped
+    fn = [n for _, n in js["registries"]["flt"]["names"] if n]
+    chains = [fn, fn[::-1], ["nosuch"] + fn, fn + ["nosuch", fn[0]] if fn else ["nosuch"], []]
+    for i in range(len(fn)):
+        chains.append([fn[(i + j) % len(fn)] for j in range(min(3, len(fn)))])
+        chains.append([fn[i], fn[i]] + fn[:2])
+    for ch in chains:
+        out.append("chain\tflt\t%s\t%s" % (",".join(ch) if ch else "[]", g))
     for k in KEYS:
         nrows = len(js["registries"][k]["names"])
         out.append("count\t%s\t%s" % (k, g))
@@ -345,7 +373,10 @@ def spec_lines(lines, answers):
     idx, out = [], []
     for i, (l, a) in enumerate(zip(lines, answers)):
         f = l.split("\t")
-        if f[0] in ("byname", "dispatch") and a.startswith("ok\t"):
+        if f[0] == "chain" and a.startswith("ok\t"):
+            idx.append(i)
+            out.append("chainspec\t%s\t%s\t%s\t%s" % (f[1], f[2], f[3], a.split("\t")[1]))
+        elif f[0] in ("byname", "dispatch", "dispatchs") and a.startswith("ok\t"):
             o = a.split("\t")[1]
             if o.startswith("fault"):
                 o = "fault"
@@ -373,7 +404,12 @@ def classify_case(js, line, model, ans):
     k = f[1]
     kind = KIND_OF[k]
     a = ans.split("\t")
-    if f[0] == "dispatch":
+    if f[0] == "chain":
+        if not ans.startswith("ok"):
+            return "fault:" + a[0].split(":")[0], "walking the filter chain [%s] ended in %s" % (f[2], ans)
+        return "spec:chain", ("filter chain [%s]: the filters that ran are %s, the enabled elements in order are %s "
+                              "(a switched-off or unknown element must be skipped without affecting the others)" % (f[2], a[1], model.split("\t")[1] if "\t" in model else model))
+    if f[0] in ("dispatch", "dispatchs"):
         name = bytes.fromhex(f[2]).decode() if f[2] != "-" else ""
         if not ans.startswith("ok"):
             return "fault:" + a[0].split(":")[0], "snoopy_outputregistry_dispatch with the configured output '%s' ended in %s" % (name, ans)
@@ -406,6 +442,21 @@ def classify_case(js, line, model, ans):
     if o == "unknown":
         return "spec:enabled-unknown", "%s '%s' is enabled in this configuration but the registry does not know the name" % (kind, name)
     return "fault:lookup", "lookup of %s '%s' misbehaved: %s" % (kind, name, o)
+
+
+def minimise(impl, js, defined, lines, i, bad_answer):
+    """smallest order-preserving prefix context under which case i still gets `bad_answer` from a fresh process:
+    the case alone, with its predecessor, with the last 40, with everything before it"""
+    for cand in ([lines[i]], lines[max(0, i - 1):i + 1], lines[max(0, i - 40):i + 1], lines[:i + 1]):
+        if cand and cand[0].startswith("arrays"):
+            cand = [c for c in cand if not c.startswith("arrays")] or cand
+        try:
+            ans, err = impl_answers(impl, js, defined, cand)
+        except CheckError:
+            continue
+        if not err and ans and ans[-1] == bad_answer:
+            return cand
+    return lines[:i + 1]
 
 
 def diagnose(js):
@@ -630,18 +681,20 @@ def check(run):
             f = l.split("\t")
             if a == "nobuild":
                 continue
-            if f[0] in ("byname", "byid", "dispatch") and "\tcalled:" in a:
+            if (f[0] in ("byname", "byid", "dispatch", "dispatchs") and "\tcalled:" in a) or (f[0] == "chain" and a.startswith("ok\tsnoopy")):
                 n_called.add((label, f[1], f[0], f[2]))
             faulted = not a.startswith("ok") or "\tfault" in a
             if faulted or i in spec_bad.get(ci, []):
                 sig, text = classify_case(js, l, mm, a)
                 if sig not in seen_sig:
                     seen_sig.add(sig)
+                    seq = minimise(impl, js, defined, lines, i, a)
                     run.violation(sig, "sanitizer" if sig.startswith("fault") else "spec_violation",
-                                  "%s [%s: %s]" % (text, label, describe(universe, defined)),
+                                  "%s [%s: %s]%s" % (text, label, describe(universe, defined),
+                                                     "" if len(seq) == 1 else " (after %d earlier lookups in the same process, see cases)" % (len(seq) - 1)),
                                   {"stream": "config", "failing_input": {"configuration": describe(universe, defined), "defined": defined, "case": l,
-                                                                         "implementation": a, "model": mm},
-                                   "cases": [l]})
+                                                                         "implementation": a, "model": mm, "lookup_sequence": seq},
+                                   "cases": seq})
                 nv += 1
             elif a != mm:
                 (mism_arrays if f[0] == "arrays" else mism_calls).append((label, defined, l, mm, a))
@@ -715,7 +768,7 @@ def check(run):
         "evaluations": n_eval, "distinct_nontrivial": len(n_called),
         "rule": "per build configuration (a config.h with exactly the chosen guard macros defined): gcc -E arrays of the three registry files, and the registries "
                 "+ genericregistry.c linked against identity stubs, asked getCount, callById/getName for every id in [-2, rows+2) and INT_MIN/INT_MAX, "
-                "callByName/doesNameExist/getIdFromName for every name of every table plus near misses, snoopy_outputregistry_dispatch with CFG->output set to each of these names; configurations = all-on, all-off, as-configured, "
+                "callByName/doesNameExist/getIdFromName for every name of every table plus near misses, snoopy_outputregistry_dispatch with CFG->output set to each of these names (fresh pointer, and one fixed address with changing content), every table name asked of the three registries in a row, filter chains (all, reversed, rotations, repeats, unknown elements) walked by the snapshot's filtering.c with PASS-answering stubs; configurations = all-on, all-off, as-configured, "
                 "every single switch off, single switch on, seeded random subsets (densities 0.15/0.5/0.85/0.97); plus snoopy_genericregistry_* on generated arrays "
                 "with duplicates/prefixes/early sentinels; non-trivial = distinct (configuration, registry, lookup) whose answer actually called an implementation",
         "samples": [per_cfg[i][2][j][:200] for i, j in ((0, 4), (1, 60), (min(5, len(per_cfg) - 1), 80), (len(per_cfg) - 1, 100)) if j < len(per_cfg[i][2])] + gen_lines[:1],
@@ -771,34 +824,45 @@ def replay(run, path):
         if not ext["spec_bad"] and not ext["mismatches"]:
             print("option registry: %d cases in %d configurations -> ok" % (ext["evaluations"], ext["configs"]))
         cases = [l for l in cases if not l.startswith("opt")]
+    # consecutive cases of one configuration are run in ONE process, in the stored order (lookup sequences matter for
+    # anything that remembers an earlier lookup)
+    groups = []
     for l in cases:
         f = l.split("\t")
-        m = run_model(run, model, [l])[0]
-        if f[0].startswith("g"):
+        key = "generic" if f[0].startswith("g") else f[-1]
+        if groups and groups[-1][0] == key:
+            groups[-1][1].append(l)
+        else:
+            groups.append((key, [l]))
+    for key, lines in groups:
+        ms = run_model(run, model, lines)
+        if key == "generic":
             d = impl.cfgdir(list(universe))
             exe, err = impl.binary(d)
-            a = impl.run_cases(exe, [l])[0] if exe else "nobuild"
-            verdict = "ok" if a == m else "DIFFERS"
+            answers = impl.run_cases(exe, lines) if exe else ["nobuild"] * len(lines)
+            err = None
         else:
-            g = f[-1]
-            defined = [] if g == "[]" else g.split(",")
-            ans, err = impl_answers(impl, js, defined, [l])
-            a = ans[0]
+            defined = [] if key == "[]" else key.split(",")
+            answers, err = impl_answers(impl, js, defined, lines)
+            print("configuration:", describe(universe, defined))
+        si, sl = spec_lines(lines, answers)
+        so = dict(zip(si, run_model(run, model, sl))) if sl else {}
+        for i, (l, m, a) in enumerate(zip(lines, ms, answers)):
+            f = l.split("\t")
             verdict = "ok"
             if a == "nobuild" or err:
                 verdict = "DOES-NOT-BUILD: " + (err or "")[-400:].replace("\n", " ")
-            elif f[0] in ("byname", "byid", "dispatch") and a.startswith("ok"):
-                si, sl = spec_lines([l], [a])
-                s = run_model(run, model, sl)[0] if sl else "ok"
-                verdict = "ok" if (s == "ok" and a == m) else ("SPEC-VIOLATION" if s != "ok" else "DIFFERS")
+            elif not a.startswith("ok") or "\tfault" in a:
+                verdict = "FAULT"
+            elif so.get(i, "ok") != "ok":
+                verdict = "SPEC-VIOLATION"
             elif a != m:
-                verdict = "DIFFERS" if a.startswith("ok") else "FAULT"
-            print("configuration:", describe(universe, defined))
-        print("case: ", l[:300])
-        print(" model:", m[:300])
-        print(" impl: ", a[:300])
-        print(" ->", verdict)
-        if verdict != "ok":
-            bad += 1
+                verdict = "DIFFERS"
+            print("case: ", l[:300])
+            print(" model:", m[:300])
+            print(" impl: ", a[:300])
+            print(" ->", verdict)
+            if verdict != "ok":
+                bad += 1
     run.cleanup()
     return 1 if bad else 0
